@@ -40,7 +40,9 @@ func HarnessC16() {
 		other.OnlyModels = true
 	case 1:
 		mode = "tags"
-		other.Tags = []string{"json"}
+		// any tag list, with or without "json" (the base run uses json, yaml, mapstructure)
+		lists := [][]string{{"json"}, {"yaml"}, {"json", "custom"}, {"mapstructure", "toml"}}
+		other.Tags = lists[zzvrt.Choice(len(lists))]
 	default:
 		mode = "no-yaml"
 		other.ExtraImports = false
